@@ -1407,9 +1407,16 @@ pub fn c10(property: &str, seed: u64) -> Plan {
         let a = survivors[c.range(&[10], 0, survivors.len() as u64 - 1) as usize];
         let b = survivors.iter().copied().find(|&x| x != a).unwrap();
         let shortest = survivors.iter().map(|&s| p.nodes[s].timeout_ms.unwrap_or(p.cfg.timeout_ms)).min().unwrap_or(2000);
-        let d = ms(c.range(&[11], 50, 700).min(shortest.saturating_sub(300).max(50)));
-        let at = t_kill.saturating_sub(c.range(&[12], 0, ms(100)));
-        p.windows.push(Window { from: a, to: b, start_us: at, end_us: at + d, kinds: ALL_KINDS, action: WinAction::Drop });
+        // the survivors must stay connected: the silence one of them sees is the burst plus the gap
+        // between two packets of a stalled sender (keep-alives: 200 ms, one tick of slack) plus the
+        // link's jitter, and has to stay clear of the shortest timeout
+        let jitter_ms = p.links.iter().map(|l| l.jitter_us).max().unwrap_or(0) / 1000;
+        let d_max = shortest.saturating_sub(200 + 50 + 2 * jitter_ms + 100);
+        if d_max >= 50 {
+            let d = ms(c.range(&[11], 50, 700).min(d_max));
+            let at = t_kill.saturating_sub(c.range(&[12], 0, ms(100)));
+            p.windows.push(Window { from: a, to: b, start_us: at, end_us: at + d, kinds: ALL_KINDS, action: WinAction::Drop });
+        }
     }
     let max_lat = p.links.iter().map(|l| l.base_us + l.jitter_us).max().unwrap_or(0);
     let heal = t_kill + ms(longest_timeout) + 2 * max_lat + ms(1500);
